@@ -35,7 +35,7 @@ def fromData (data : Bytes) (psize : Nat) : PartSet :=
       some { index := i, bytes := pieces.getD i [], proof := proofOf H pieces i } }
 
 inductive AddRes | added | dup | errIndex | errProof
-deriving Repr, DecidableEq
+deriving Repr, DecidableEq, BEq
 
 /-- `PartSet.AddPart` (with the position checks of the `fix:` commit: the proof's own index and
 total must be the slot and the header's total). -/
